@@ -26,6 +26,7 @@ type Profile struct {
 	ForceRedaction    int  // 0 = draw, 1 = none, 2 = urns
 	RichLocalization  bool // >=2 translation languages more often
 	FewKnobs          bool // default engine options
+	NoAirtime         bool // no transfer_airtime (it operates on URNs by contract: its errors name the number)
 	// OrderSensitive enables constructs whose output could depend on Go map iteration order
 	// (several currencies, several headers/translations evaluated with errors). While goflow
 	// has such dependences they make runs irreproducible, so only the C08 check turns it on.
